@@ -7,14 +7,18 @@ sys.path.insert(0, HERE)
 
 ID = 'C10'
 LEVEL = 'exploration'
-SIDECARS = []
-FUNCTIONS = []
-TRUSTED = []
+SIDECARS = ['types_sub', 'unify']
+FUNCTIONS = ['src.ir.type_utils._update_type_var_map']
 ASSUMPTIONS = [
-    'bounded stand-in only (labelled bounded, nothing here is counted as proved): unify_types is not under a deductive '
-    'contract yet; the oracle is an independent term-level matcher written from the property statement',
+    'proved (small part): the binding helper _update_type_var_map refuses exactly the bindings that would give a variable a '
+    'second, different type, records the others and leaves every other binding alone. unify_types itself is NOT under a '
+    'deductive contract (DESIGN 10.3: its clauses speak about the final assignment and the match relation is not monotone '
+    'under extension of the map); everything about it is the bounded part: the oracle is an independent term-level matcher '
+    'written from the property statement',
 ]
-NOT_UNDER_CONTRACT = ['src.ir.type_utils.unify_types', 'src.ir.type_utils._update_type_var_map']
+NOT_UNDER_CONTRACT = ['src.ir.type_utils.unify_types']
+TRUSTED = ['dictionary keys: two type parameters are the same key iff they are the same object / equal value of the model '
+           '(hash consistency of IR objects assumed); PyEq is the answer of the IR\'s own __eq__']
 
 from props import C10_bounded as _b   # noqa: E402
 bounded = _b.bounded
